@@ -363,6 +363,7 @@ func runC11(c *fw.Ctx) {
 				c.Violate("decorator/package-files", "decorator/package-files", fmt.Sprintf("%s: %d files decorated, %d in the ast package", id, len(dp.Files), len(apkg.Files)), "")
 			}
 			r := decorator.NewRestorer()
+			restored := map[string]*ast.File{}
 			for _, name := range []string{"f0.go", "f1.go"} {
 				af, df := apkg.Files[name], dp.Files[name]
 				if df == nil {
@@ -378,10 +379,13 @@ func runC11(c *fw.Ctx) {
 				if err != nil {
 					return
 				}
+				restored[name] = rf
 				c11Laws(c, id+"/"+name, "restorer", rf, df, r.Ast.Nodes, r.Dst.Nodes, srcs[name])
 			}
 			// the first file's entries must have survived the second restoration
-			c11Laws(c, id+"/f0.go(after f1.go)", "decorator", apkg.Files["f0.go"], dp.Files["f0.go"], d.Ast.Nodes, d.Dst.Nodes, srcs["f0.go"])
+			if rf0 := restored["f0.go"]; rf0 != nil {
+				c11Laws(c, id+"/f0.go(after f1.go)", "restorer", rf0, dp.Files["f0.go"], r.Ast.Nodes, r.Dst.Nodes, srcs["f0.go"])
+			}
 			c.Count("packages_two_files", 1)
 			c.Nontrivial(id)
 		})
